@@ -125,7 +125,12 @@ def gen_site_spec(rng, L, mixed_prob=0.3, dmax=4096):
         dims = [site_dim(k) for k, _ in kinds]
         D = int(np.prod(dims))
         if D <= dmax:
-            return {'kinds': [[k, list(c) if isinstance(c, tuple) else c] for k, c in kinds]}
+            spec = {'kinds': [[k, list(c) if isinstance(c, tuple) else c] for k, c in kinds]}
+            try:
+                build_sites(spec)  # incompatible charge combinations raise here
+            except Exception:
+                continue
+            return spec
     return {'kinds': [['SpinHalf', 'Sz']] * L}
 
 
@@ -337,16 +342,31 @@ def random_bond_legs(sites, nprng, max_mult=3, bc='finite', keep_prob=0.8):
             dims[0] = dims[L] = 1
         return [npc.LegCharge.from_trivial(d, chinfo) for d in dims]
     allowed, Q = reachable_bond_charges(sites, None, nprng)
+    qs = [s.leg.charges for s in sites]
+
+    def succ(q, i):
+        return [tuple(int(x) for x in chinfo.make_valid(np.array(q) + c)) for c in qs[i]]
+
+    # choose the charges bond by bond so that every chosen charge has a predecessor and a successor
+    # (no dead bond states: from_Bflat could not detect their charges)
+    chosen = [[allowed[0][0]]]
+    for i in range(L):
+        al = set(allowed[i + 1])
+        need = []
+        for q in chosen[i]:
+            sc = [x for x in succ(q, i) if x in al]
+            need.append(sc[int(nprng.integers(0, len(sc)))])
+        cand = sorted({x for q in chosen[i] for x in succ(q, i) if x in al})
+        extra = [x for x in cand if nprng.random() < keep_prob]
+        chosen.append(sorted(set(need) | set(extra)))
     legs = []
-    for i, al in enumerate(allowed):
+    for i, ch in enumerate(chosen):
         if bc == 'finite' and i in (0, L):
-            chosen = [(al[0], 1)]
+            mult = [1] * len(ch)
         else:
-            keep = [q for q in al if nprng.random() < keep_prob] or [al[int(nprng.integers(0, len(al)))]]
-            chosen = [(q, int(nprng.integers(1, max_mult + 1))) for q in keep]
-        qflat = [list(q) for q, m in chosen for _ in range(m)]
+            mult = [int(nprng.integers(1, max_mult + 1)) for _ in ch]
+        qflat = [list(q) for q, m in zip(ch, mult) for _ in range(m)]
         leg = npc.LegCharge.from_qflat(chinfo, qflat, qconj=+1)
-        # from_qflat keeps the given order; sort + bunch as tenpy's own constructors end up with
         _, leg = leg.sort(bunch=True)
         legs.append(leg)
     return legs
@@ -519,6 +539,8 @@ def build_state(case):
                                                 dtype=complex if cplx else float, unit_cell_width=1)
                 else:
                     lp = MPS.from_full(lsites, psi_to_npc(lsites, v, q), unit_cell_width=len(m))
+                    if case.get('local_canon', False):
+                        lp.canonical_form_finite()  # virtual legs as left by the SVD sweep of canonical_form
                 locals_.append(lp)
                 local_refs.append(v)
             psi = MPS.from_product_mps_covering(locals_, index_map, bc='finite', unit_cell_width=L)
@@ -592,4 +614,202 @@ def gen_case(rng, kinds, Lmax=6, dmax=1024):
             maps.append(m)
             pos += n
         case['index_map'] = maps
+        case['local_canon'] = rng.random() < 0.7
     return case
+
+
+# ----------------------------------------------------------------------------------------------------------------
+# infinite MPS: random unit cells and an independent numpy reference for reduced density matrices
+
+
+def build_infinite(case):
+    """random non-canonical unit cell (form=None) -> dict(psi_raw=MPS before canonicalisation, dense=[A_i])."""
+    from tenpy.networks.mps import MPS
+    from tenpy.linalg import np_conserved as npc
+    sites = sites_of(case)
+    L = len(sites)
+    nprng = _nprng(case)
+    cplx = bool(case.get('complex', False))
+    chinfo = sites[0].leg.chinfo
+    dims = case['chi']
+    if chinfo.qnumber == 0:
+        legs = [npc.LegCharge.from_trivial(d, chinfo) for d in dims]
+    else:
+        # single Z_2 charge: `d` states of each parity on every bond (generic tensors are then injective)
+        assert chinfo.qnumber == 1 and chinfo.mod[0] == 2
+        legs = [npc.LegCharge.from_qflat(chinfo, [[0]] * d + [[1]] * d, qconj=+1).bunch()[1] for d in dims]
+    legs = legs[:L] + [legs[0]]
+
+    def func(size):
+        x = nprng.normal(size=size)
+        if cplx:
+            x = x + 1j * nprng.normal(size=size)
+        return x
+
+    Bs = [npc.Array.from_func(func, [legs[i], s.leg, legs[i + 1].conj()], dtype=complex if cplx else float,
+                              labels=['vL', 'p', 'vR'], shape_kw='size') for i, s in enumerate(sites)]
+    with warnings.catch_warnings():
+        warnings.simplefilter('ignore')
+        psi = MPS(sites, Bs, [np.ones(l.ind_len) for l in legs], bc='infinite', form=None, unit_cell_width=L)
+    return dict(psi=psi, dense=[B.to_ndarray() for B in Bs])
+
+
+def transfer_spectrum(dense):
+    """eigen-decomposition of the unit-cell transfer matrix of raw tensors (vL,p,vR)."""
+    chi = dense[0].shape[0]
+    T = np.eye(chi * chi, dtype=complex).reshape(chi, chi, chi, chi)  # (a,a',b,b')
+    for A in dense:
+        T = np.einsum('xyab,apc,bpd->xycd', T, A, A.conj())
+    Tm = T.reshape(chi * chi, -1)
+    w, vr = np.linalg.eig(Tm)
+    wl, vl = np.linalg.eig(Tm.T)
+    o = np.argsort(-abs(w))
+    ol = np.argsort(-abs(wl))
+    return w[o], vr[:, o], wl[ol], vl[:, ol], chi
+
+
+def np_rho_window(dense, n):
+    """reduced density matrix of sites 0..n-1 of the infinite chain built from the raw unit cell tensors,
+    shape (D, D) with D = prod d, row index = ket configuration."""
+    w, vr, wl, vl, chi = transfer_spectrum(dense)
+    r = vr[:, 0].reshape(chi, chi)  # (b, b')
+    l = vl[:, 0].reshape(chi, chi)  # (a, a')
+    L = len(dense)
+    th = None
+    for k in range(n):
+        A = dense[k % L]
+        th = A if th is None else np.tensordot(th, A, axes=(-1, 0))
+    D = int(np.prod(th.shape[1:-1]))
+    th = th.reshape(chi, D, th.shape[-1])
+    chiR = th.shape[-1]
+    # the window may end inside a unit cell: propagate r through the remaining sites of the cell
+    rem = (-n) % L
+    rr = r
+    if rem:
+        # r lives on bond 0; bring it to the bond right of site n-1 by contracting the remaining sites from the right
+        for k in range(n + rem - 1, n - 1, -1):
+            A = dense[k % L]
+            rr = np.einsum('apb,cpd,bd->ac', A, A.conj(), rr)
+    rho = np.einsum('ac,asb,ctd,bd->st', l, th, th.conj(), rr)
+    return rho / np.trace(rho)
+
+
+# ----------------------------------------------------------------------------------------------------------------
+# chunked evaluation with the Lean driver
+
+
+def run_chunk(args):
+    """worker: evaluate cases with `eval_fn` (module-level function given by dotted name), send all their driver
+    lines through ONE driver process, let every case compare its answers.  Returns plain dicts."""
+    import importlib
+    import time
+    import traceback
+    from vlib import core
+    mod_name, fn_name, cases, driver, budget_s = args
+    core.use_repo()
+    fn = getattr(importlib.import_module(mod_name), fn_name)
+    t0 = time.time()
+    evs = []
+    for case in cases:
+        if budget_s is not None and time.time() - t0 > budget_s:
+            break
+        try:
+            with warnings.catch_warnings():
+                warnings.simplefilter('ignore')
+                ev = fn(case)
+        except Exception as e:  # a bug of the harness itself must not look like a verdict
+            ev = dict(skip='harness-exception: ' + ''.join(traceback.format_exception_only(type(e), e)).strip()[:300]
+                      + ' @ ' + traceback.format_exc().strip().splitlines()[-3][:200])
+        ev['case'] = case
+        evs.append(ev)
+    lines = []
+    for ev in evs:
+        ev['_slice'] = (len(lines), len(lines) + len(ev.get('lines', [])))
+        lines += ev.get('lines', [])
+    outs = []
+    derr = None
+    if lines:
+        try:
+            outs = core.run_driver(driver, lines, timeout=3000)
+        except core.DriverError as e:
+            derr = str(e)[:1500]
+    res = []
+    for ev in evs:
+        corr = []
+        if 'compare' in ev and derr is None and lines:
+            a, b = ev['_slice']
+            try:
+                corr = ev['compare'](outs[a:b])
+            except Exception as e:
+                corr = [('harness.compare-exception', repr(e)[:300])]
+        res.append(dict(case=ev['case'], oracle=ev.get('oracle', []), corr=corr, skip=ev.get('skip'),
+                        nontrivial=bool(ev.get('nontrivial', False)), hist=ev.get('hist', []),
+                        compared=('compare' in ev and derr is None and bool(ev.get('lines')))))
+    return dict(results=res, driver_error=derr, n_lines=len(lines))
+
+
+def run_cases(ctx, prop, mod_name, fn_name, cases, driver='C07', procs=None, budget_s=None):
+    """distribute cases over processes; returns (list of per-case result dicts, driver errors)."""
+    import multiprocessing as mp
+    import os
+    if not cases:
+        return [], []
+    procs = procs or min(16, os.cpu_count() or 4, max(1, len(cases) // 4))
+    chunks = [cases[k::procs] for k in range(procs)]
+    chunks = [c for c in chunks if c]
+    args = [(mod_name, fn_name, c, driver, budget_s) for c in chunks]
+    if len(chunks) == 1:
+        outs = [run_chunk(args[0])]
+    else:
+        with mp.get_context('fork').Pool(len(chunks)) as pool:
+            outs = pool.map(run_chunk, args)
+    results, derrs = [], []
+    for o in outs:
+        results += o['results']
+        if o['driver_error']:
+            derrs.append(o['driver_error'])
+    return results, derrs
+
+
+def fold_results(res, results, derrs, prop, shrink=None):
+    """per-case result dicts -> core.Result (failures, histogram, counters)."""
+    from vlib import core
+    for r in results:
+        if r['skip']:
+            res.count('skipped:' + r['skip'][:60])
+            continue
+        res.note_case(r['case'], r['nontrivial'])
+        for k in r['hist']:
+            res.count(k)
+        if r['compared']:
+            res.traces_validated += 1
+        for sig, detail in r['oracle']:
+            case = r['case']
+            if shrink is not None:
+                try:
+                    case = shrink(case, sig)
+                except Exception:
+                    pass
+            res.fail('property', sig, detail, case)
+        if not r['oracle']:
+            for sig, detail in r['corr']:
+                res.fail('correspondence', sig, detail, r['case'])
+    if derrs:
+        raise core.DriverError(derrs[0])
+    return res
+
+
+def close(a, b, tol):
+    a = np.asarray(a)
+    b = np.asarray(b)
+    if a.shape != b.shape:
+        return False
+    return bool(np.all(np.abs(a - b) <= tol * (1.0 + np.abs(b))))
+
+
+def maxerr(a, b):
+    a = np.asarray(a)
+    b = np.asarray(b)
+    if a.shape != b.shape:
+        return float('inf')
+    return float(np.max(np.abs(a - b))) if a.size else 0.0
